@@ -136,7 +136,7 @@ def _parse_params(c, params):
 def contract(key, module=None, qual=None, params=None, returns=None, requires=(), ensures=(),
              raises=None, modifies=(), loops=None, yields=False, pure=False, props=(),
              kind='repo', model=None, defaults=None, free_requires=(), notes='',
-             locals=None, verify=True, lemmas=(), reads=(), checks=(), scope_timeouts=()):
+             locals=None, verify=True, lemmas=(), reads=(), checks=(), scope_timeouts=(), is_property=False):
     c = Contract(key)
     c.kind = kind
     c.module = module
@@ -161,7 +161,8 @@ def contract(key, module=None, qual=None, params=None, returns=None, requires=()
     c.lemmas = list(lemmas)
     c.reads = list(reads)
     c.scope_timeouts = list(scope_timeouts)
-    c.checks = list(checks)      # proved at every normal exit, not exported to callers
+    c.checks = list(checks)
+    c.is_property = is_property      # proved at every normal exit, not exported to callers
     c.locals = {k: T.parse_type(v) for k, v in (locals or {}).items()}
     CONTRACTS[key] = c
     for p in props:
